@@ -108,19 +108,41 @@ namespace
     int g_calls[8];
     int g_ncalls;
     long g_seen_a, g_seen_b;
+    // third argument: an object whose VALUE CATEGORY the functor observes through overload resolution
+    // (0 = const lvalue, 1 = non-const lvalue, 2 = rvalue): "forwards the arguments" includes how they are passed on
+    struct tracker
+    {
+        int v;
+    };
+    int g_seen_cat;
     struct probe
     {
         template <class Arch>
-        long operator()(Arch, long a, const long& b) const
+        long call(long a, const long& b, int cat) const
         {
             if (g_ncalls < 8)
                 g_calls[g_ncalls] = arch_id<Arch>::value;
             ++g_ncalls;
             g_seen_a = a;
             g_seen_b = b;
+            g_seen_cat = cat;
             return a * 31 + b * 7 + arch_id<Arch>::value; // result derived from the arguments and the architecture
         }
+        template <class Arch>
+        long operator()(Arch, long a, const long& b, const tracker&) const { return call<Arch>(a, b, 0); }
+        template <class Arch>
+        long operator()(Arch, long a, const long& b, tracker&) const { return call<Arch>(a, b, 1); }
+        template <class Arch>
+        long operator()(Arch, long a, const long& b, tracker&&) const { return call<Arch>(a, b, 2); }
     };
+    template <class D>
+    long call_with_category(D& d, long x, long y, int cat)
+    {
+        const tracker ct { 7 };
+        tracker t { 8 };
+        g_seen_cat = 9;
+        return cat == 0 ? d(x, y, ct) : cat == 1 ? d(x, y, t) : d(x, y, tracker { 9 });
+    }
 
     // dispatch through arch_list L under the current injected configuration.
     // output: [ncalls, called ids (up to 8)..., ret (4 bytes LE), seen a (2 bytes), seen b (2 bytes), flags (23)]
@@ -135,7 +157,7 @@ namespace
             g_calls[i] = 0;
         long x = a.in[1][0] | (a.in[1][1] << 8), y = a.in[1][2] | (a.in[1][3] << 8);
         auto d = xsimd::dispatch<L>(probe {});
-        long ret = d(x, y);
+        long ret = call_with_category(d, x, y, a.in[1][4] % 3);
         xsimd::detail::supported_arch fl = xsimd::available_architectures();
         xsimd::detail::verif_cpu_source_slot() = nullptr;
         int k = 0;
@@ -150,6 +172,7 @@ namespace
         k += 2;
         put_flags(fl, o.bytes + k);
         k += 23;
+        o.bytes[k++] = (uint8_t)g_seen_cat; // last byte: the value category the functor saw
         o.len = k;
     }
 
@@ -180,7 +203,7 @@ namespace
             g_calls[i] = 0;
         long x = a.in[1][0] | (a.in[1][1] << 8), y = a.in[1][2] | (a.in[1][3] << 8);
         auto d = xsimd::dispatch(probe {});
-        long ret = d(x, y);
+        long ret = call_with_category(d, x, y, a.in[1][4] % 3);
         xsimd::detail::supported_arch fl = xsimd::available_architectures();
         xsimd::detail::verif_cpu_source_slot() = nullptr;
         int k = 0;
@@ -200,6 +223,7 @@ namespace
         k += 1 + n;
         o.bytes[k++] = (uint8_t)arch_id<xsimd::best_arch>::value;
         o.bytes[k++] = (uint8_t)arch_id<xsimd::default_arch>::value;
+        o.bytes[k++] = (uint8_t)g_seen_cat; // last byte: the value category the functor saw
         o.len = k;
     }
 
